@@ -72,6 +72,7 @@ func (e *entry) cancelLoad() {
 }
 
 func (e *entry) waitLoad(ctx context.Context, id string) (value Object, err error) {
+	verifWait("waitLoad", e.id, e.load)
 	select {
 	case <-ctx.Done():
 		log.DebugCtx(ctx, "ctx done while waiting on object load", zap.String("id", id))
@@ -87,6 +88,7 @@ func (e *entry) waitClose(ctx context.Context, id string) (res bool, err error) 
 	case entryStateClosing:
 		waitCh := e.close
 		e.mx.Unlock()
+		verifWait("waitClose.wait", e.id, waitCh)
 		select {
 		case <-ctx.Done():
 			log.DebugCtx(ctx, "ctx done while waiting on object close", zap.String("id", id))
@@ -107,6 +109,7 @@ func (e *entry) waitClose(ctx context.Context, id string) (res bool, err error) 
 // closer is done with it, bounded by ctx: that closer may be inside a TryClose
 // that waits on an unresponsive peer.
 func (e *entry) setClosing(ctx context.Context, wait bool) (prevState, curState entryState, err error) {
+	verifYield("setClosing", e.id)
 	e.mx.Lock()
 	prevState = e.state
 	curState = e.state
@@ -121,6 +124,7 @@ func (e *entry) setClosing(ctx context.Context, wait bool) (prevState, curState 
 		if !wait {
 			return
 		}
+		verifWait("setClosing.wait", e.id, waitCh)
 		select {
 		case <-waitCh:
 		case <-ctx.Done():
